@@ -17,6 +17,10 @@ JOBS = [
         cases=[('p_le0', 'in_prec <= 0')] + [('p%d' % k, 'in_prec == %d' % k) for k in range(1, 11)] + [('p_ge11', 'in_prec >= 11')],
         replay_ghost=[ANGNORM_GHOST % 'lon'], timeout=300, replay_domain=EXACT_LON,
         description='Georef encoder'),
+    Job('GARS.Forward', 'GARS::Forward', ['C18', 'C13', 'C14'], replace=['Math::AngNormalize'], unwind=10,
+        replay_ghost=[ANGNORM_GHOST % 'lon'], timeout=300, replay_domain=EXACT_LON, description='GARS encoder'),
+    Job('Geohash.Forward', 'Geohash::Forward', ['C18', 'C13', 'C14'], replace=['Math::AngNormalize'], unwind=92,
+        replay_ghost=[ANGNORM_GHOST % 'lon'], timeout=300, replay_domain=EXACT_LON, description='Geohash encoder'),
 ]
 
 
